@@ -432,6 +432,20 @@ def run(ctx):
                 s = geoms.geom_in_box(rng, typ, t0, t0 + w, f0, min(f0 + h, MAXF))
                 ctx.case((typ, "on_edge:" + edge, "arbitrary_buffers", "exact" if off == 0 else "near"), {"g": s, "tb": tb, "fb": fb, "tb2": None, "fb2": None})
                 judge(ctx, s, tb, fb)
+    # features far thinner than the buffer (a pure tone drawn 2 mHz wide, a click 2 us long) buffered by the largest
+    # buffers: extent / buffer down to 1e-10
+    for typ in ("Polygon", "MultiPolygon", "LineString", "MultiLineString", "MultiPoint"):
+        for _ in range(ctx.scale(8, 40)):
+            thin_t = rng.random() < 0.5
+            t0, f0 = rng.choice([0.0, 1.5, 30.0]), rng.choice([0.0, 2000.0, 4.0e6])
+            w, h = (rng.choice([2e-6, 1e-7, 5e-5]), rng.choice([500.0, 20000.0])) if thin_t else (rng.choice([0.5, 3.0]), rng.choice([0.002, 1e-4, 0.05]))
+            s_ = geoms.geom_in_box(rng, typ, t0, t0 + w, f0, min(f0 + h, MAXF))
+            if typ == "MultiPolygon" and rng.random() < 0.5:
+                # one thin member next to an ordinary one
+                s_ = {"type": typ, "coordinates": s_["coordinates"][:1] + geoms.geom_in_box(rng, "MultiPolygon", t0 + 10.0, t0 + 12.0, 1000.0, 3000.0)["coordinates"][:1]}
+            tb, fb = (rng.choice([1e4, 30.0, 5000.0]), rng.choice([100.0, 0.0, 1000.0])) if thin_t else (rng.choice([0.01, 0.0, 1.0]), rng.choice([6e6, float(MAXF), 50000.0]))
+            ctx.case((typ, "thin_feature", "time" if thin_t else "frequency"), {"g": s_, "tb": tb, "fb": fb, "tb2": None, "fb2": None})
+            judge(ctx, s_, tb, fb)
     for _ in range(ctx.scale(6, 30)):
         run_concurrent(ctx, rng.getrandbits(32))
     n = ctx.scale(120, 900)
